@@ -1,7 +1,71 @@
-"""Curated programs run before the random ones (coverage of every impl row and attribute;
-minimised failing cases are appended here)."""
+"""Curated programs run before the random ones: every impl row and derive attribute, lengths that
+straddle powers of ten and two, nodes whose widest child is not the deepest, deep nesting of
+callbacks.  Minimised failing cases found by earlier runs are appended here."""
+import random
 from . import schema as S
 
 
+def L(tid=1):
+    return dict(k="leaf", tid=tid)
+
+
+def F(name, t, **kw):
+    f = dict(name=name, rename=None, skip=False, defer=False, t=t, deny={}, get=None, getmut=None, val=None)
+    f.update(kw)
+    return f
+
+
+def ST(name, fields, style="named", flatten=False):
+    return dict(k="struct", name=name, style=style, flatten=flatten, fields=fields)
+
+
+def EN(name, variants, flatten=False):
+    return dict(k="enum", name=name, flatten=flatten, variants=variants)
+
+
+def V(name, t, **kw):
+    v = dict(name=name, rename=None, skip=False, unit=False, t=t, deny={}, get=None, getmut=None, val=None)
+    v.update(kw)
+    return v
+
+
+def G(g, t):
+    return dict(k="gate", g=g, t=t)
+
+
+def A(n, t):
+    return dict(k="arr", n=n, t=t)
+
+
 def curated():
-    return []
+    rng = random.Random(20260930)
+    out = []
+    # 1. tuple struct with 12 fields, the longest path through index 10
+    inner = ST("C1i", [F("value", L(6))])
+    out.append(ST("C1", [F("f%d" % i, (inner if i == 10 else L(1 + i % 9))) for i in range(12)], style="tuple"))
+    # 2. every range / result / bound impl, Result with arms of different shape
+    out.append(ST("C2", [F("r", dict(k="range", t=L(6))), F("rf", dict(k="rangefrom", t=A(2, L(1)))), F("rt", dict(k="rangeto", t=L(9))),
+                         F("res", dict(k="result", t=A(2, L(1)), e=L(6))), F("b", dict(k="bound", t=ST("C2b", [F("x", L(2)), F("y", L(3))]))),
+                         F("o", G("Option", dict(k="range", t=L(1))))]))
+    # 3. widest child is not the deepest child; widths around powers of two
+    mid = ST("C3m", [F("a", ST("C3n", [F("b", L(1))]))])
+    out.append(ST("C3", [F("narrow", mid), F("wide", A(16, L(1))), F("w17", A(17, L(9))), F("t3", dict(k="tuple", ts=[L(1), L(2), L(3)])),
+                         F("t4", dict(k="tuple", ts=[L(1), L(2), L(3), L(6)])), F("t5", dict(k="tuple", ts=[L(1)] * 5))]))
+    # 4. array lengths around powers of ten
+    out.append(ST("C4", [F("a9", A(9, L(1))), F("a10", A(10, L(1))), F("a11", A(11, L(1))), F("a99", A(99, L(9))), F("a100", A(100, L(9))),
+                         F("a101", A(101, A(2, L(1))))]))
+    # 5. every wrapper, nested, with callbacks at three levels, deny, defer, rename, skip, flatten, enum
+    deep = ST("C5d", [F("x", L(6), val=31), F("d", L(1), deny={"OSer": 3, "ORef": 4}), F("sk", dict(k="skipped", v=5), skip=True),
+                      F("y", A(2, L(1)), get=32, getmut=33)])
+    mid5 = ST("C5m", [F("a", deep, get=21, getmut=22, val=23), F("bb", deep, rename="r_b", defer=True, getmut=24),
+                      F("e", EN("C5e", [V("A", L(6)), dict(name="U", rename=None, skip=False, unit=True, t=None, deny={}, get=None, getmut=None, val=None),
+                                        V("B", deep, rename="bee", deny={"ODe": 7})]))])
+    flat = ST("C5f", [F("f0", mid5, val=12)], style="tuple", flatten=True)
+    out.append(ST("C5", [F("g", flat, getmut=11, val=13), F("o", G("Option", mid5), val=14),
+                         F("w", dict(k="tuple", ts=[G("Box", L(1)), G("Cell", L(6)), G("RefCell", L(9)), G("Cow", L(13)), G("Rc", L(1)),
+                                                     G("Arc", A(2, L(2))), G("Mutex", L(6)), G("RwLock", L(1))])),
+                         F("s", dict(k="strleaf")), F("dn", dict(k="deny", tid=6))]))
+    res = []
+    for t in out:
+        res.append((t, [S.value(rng, t) for _ in range(2)]))
+    return res
